@@ -399,5 +399,69 @@ def run_pair(ctx, go_suite, ml_suite, lines):
     return r[0], r[1]
 
 
+# ------------------------------------------------------------------------------------------------
+# the real binary on a scratch module
+
+_scratch_n = [0]
+
+
+def scratch_dir(tag="m"):
+    """A fresh directory under /tmp whose path consists of /tmp/vq<digits>... only (exclude-paths are
+    substring matches on absolute file names, so the path must not contain letters that could match)."""
+    _scratch_n[0] += 1
+    d = "/tmp/vq%d%s%d" % (os.getpid(), "0", _scratch_n[0])
+    if os.path.exists(d):
+        shutil.rmtree(d)
+    os.makedirs(d)
+    import atexit
+    atexit.register(lambda: shutil.rmtree(d, ignore_errors=True))
+    return d
+
+
+CODE_RE = re.compile(r"^error: \[([A-Za-z0-9]+)\]")
+
+
+def parse_json_diags(out, root):
+    """multichecker -json output -> sorted list of dicts (file relative to root, line, col, code, analyzer, message)"""
+    res = {}
+    errors = []
+    try:
+        d = json.loads(out) if out.strip() else {}
+    except Exception as e:
+        return [], ["unparsable json: %s" % e]
+    for pkg, v in d.items():
+        for an, ds in v.items():
+            if isinstance(ds, dict):
+                errors.append("%s/%s: %s" % (pkg, an, ds.get("error")))
+                continue
+            for x in ds:
+                posn = x.get("posn", "")
+                m = re.match(r"^(.*):(\d+):(\d+)$", posn)
+                if not m:
+                    errors.append("bad posn " + posn)
+                    continue
+                f = os.path.relpath(m.group(1), root) if m.group(1).startswith("/") else m.group(1)
+                cm = CODE_RE.match(x.get("message", ""))
+                code = cm.group(1) if cm else "?"
+                key = (f, int(m.group(2)), int(m.group(3)), code, an)
+                res[key] = {"file": f, "line": int(m.group(2)), "col": int(m.group(3)), "code": code, "analyzer": an,
+                            "message": x.get("message", "")}
+    return [res[k] for k in sorted(res)], errors
+
+
+def run_binary(ctx, moddir, flags=(), env=None, patterns=("./...",), json_mode=True, timeout=300):
+    e = dict(ctx.env)
+    if env:
+        e.update(env)
+    cmd = [ctx.gg] + (["-json"] if json_mode else []) + list(flags) + list(patterns)
+    rc, out, err = sh(cmd, cwd=moddir, env=e, timeout=timeout)
+    crashed = ("panic:" in err) or ("internal error" in err) or rc in (2, 124) and "flag" not in err[:200]
+    if json_mode:
+        diags, errors = parse_json_diags(out, moddir)
+    else:
+        diags, errors = [], []
+    return {"rc": rc, "stdout": out, "stderr": err, "diags": diags, "errors": errors, "crashed": crashed}
+
+
 def rng_for(ctx, salt):
     return random.Random("%d/%s" % (ctx.seed, salt))
